@@ -940,6 +940,7 @@ func ruleGlobals(c *Ctx) {
 	for _, b := range c.bodies() {
 		l := c.L
 		a := c.effFor(b)
+		b.closuresWriteCaptures(l)
 		for _, pkg := range []*ssa.Package{b.Lib, b.Codec} {
 			if pkg == nil {
 				continue
